@@ -30,8 +30,27 @@ class SpecMismatch(Exception):
 
 
 # ----------------------------------------------------------------------------- logging models
+def interp_parts(ex, interp):
+    """(context identity, bindings identity, call depth) of an interpreter value"""
+    v = models.deref(ex, interp)
+    if not isinstance(v, VStruct):
+        return None, None, None
+
+    def opt_target(o):
+        if isinstance(o, VAdt) and isinstance(o.discr, int) and o.discr == 1:
+            return vid_of(ex, ex.adt_fields(o, 1)[0])
+        return None
+    fields = dict(zip([fn for fn, _ in ex.P.types.structs["Interpreter"]], v.fields))
+    depth = fields["depth"]
+    cnt = depth.fields[0] if isinstance(depth, VStruct) else None       # ScopedCounter { count: RefCell<usize> }
+    val = cnt.fields[0] if isinstance(cnt, VStruct) else None
+    return opt_target(fields["cel"]), opt_target(fields["bindings"]), (val.bv if isinstance(val, VInt) else None)
+
+
 def m_run_raw(ex, callee, args, ret_ty, frame):
-    extra = {"interp": vid_of(ex, args[0]), "code": args[1].root if isinstance(args[1], VRef) else None, "resolve": args[2].concrete() if isinstance(args[2], VBool) else None}
+    cel, b, depth = interp_parts(ex, args[0])
+    extra = {"interp": vid_of(ex, args[0]), "code": args[1].root if isinstance(args[1], VRef) else None, "resolve": args[2].concrete() if isinstance(args[2], VBool) else None,
+             "cel": cel, "bindings": b, "depth": depth}
     return ex.havoc("run_raw", args, ret_ty, extra)
 
 
@@ -51,11 +70,14 @@ def m_bind_param(ex, callee, args, ret_ty, frame):
     return engine.VUnit()
 
 
-def m_interp_new(ex, callee, args, ret_ty, frame):
-    ret = VOpaque("Interpreter", ex.new_vid(), "Interpreter::new")
-    ex.used["havocked"].add("Interpreter::new")
-    ex.trace.append(Event("Interpreter::new", args, ret, {"cel": vid_of(ex, args[0]), "bindings": vid_of(ex, args[1]), "ret": ret.vid}))
-    return ret
+def mk_interp(ex, cel_ref, bind_ref, depth_bv, tag):
+    """an Interpreter value: { cel: Option<&CelContext>, bindings: Option<&BindContext>, depth: ScopedCounter }"""
+    def some(r):
+        return VAdt("Option", 1, {1: [r]}, ex.new_vid()) if r is not None else VAdt("Option", 0, {0: []}, ex.new_vid())
+    names = [fn for fn, _ in ex.P.types.structs["Interpreter"]]
+    vals = {"cel": some(cel_ref), "bindings": some(bind_ref),
+            "depth": VStruct("ScopedCounter", [VStruct("RefCell", [VInt(depth_bv, False)], ex.new_vid())], ex.new_vid())}
+    return VStruct("Interpreter", [vals[n] for n in names], ex.new_vid())
 
 
 def m_setup_context(ex, callee, args, ret_ty, frame):
@@ -67,7 +89,7 @@ def m_setup_context(ex, callee, args, ret_ty, frame):
 
 
 def m_interp_empty(ex, callee, args, ret_ty, frame):
-    ret = VOpaque("Interpreter", ex.new_vid(), "Interpreter::empty (no context, no bindings)")
+    ret = mk_interp(ex, None, None, z3.BitVecVal(0, 64), "Interpreter::empty (no context, no bindings)")
     ex.used["havocked"].add("Interpreter::empty")
     ex.notes.setdefault("empty_interps", set()).add(ret.vid)
     return ret
@@ -142,11 +164,10 @@ def m_vec_into_celvalue(ex, callee, args, ret_ty, frame):
 
 MACRO_CFG = dict(
     inline=[r"^CelValue::(true_|false_|from_err|from_null|from_bool|from_val_slice|from_list|from_string)$", r"^CelError::\w+$", r"^(filter_list|filter_map|map_list|map_map)$"],
-    opaque_types=("Interpreter", "CelContext", "BindContext", "CelByteCode", "HashMap", "String", "CelBytes", "DateTime", "Duration", "Arc"),
+    opaque_types=("CelContext", "BindContext", "CelByteCode", "HashMap", "String", "CelBytes", "DateTime", "Duration", "Arc"),
     models=[
         (r"^Interpreter::run_raw$", m_run_raw),
         (r"^BindContext::bind_param$", m_bind_param),
-        (r"^Interpreter::new$", m_interp_new),
         (r"^setup_context$", m_setup_context),
         (r"^Interpreter::empty$", m_interp_empty),
         (r"is_truthy$", m_is_truthy),
@@ -163,7 +184,12 @@ MACRO_CFG = dict(
 
 
 def macro_args(ex, func):
-    ctx = VRef(ex.heap(VOpaque("Interpreter", ex.new_vid(), "caller's interpreter"), "ctx"))
+    # the caller's interpreter: some context, some bindings, an arbitrary call depth
+    d = z3.BitVec(ex.fresh_name("caller.depth"), 64)
+    ex.assume(z3.ULE(d, 200))
+    ex.notes["caller_depth"] = d
+    ctx = VRef(ex.heap(mk_interp(ex, VRef(ex.heap(VOpaque("CelContext", ex.new_vid(), "caller's context"), "cel")), VRef(ex.heap(VOpaque("BindContext", ex.new_vid(), "caller's bindings"), "bindings")), d,
+                                 "caller's interpreter"), "ctx"))
     this = ex.fresh("CelValue", "this")
     n = z3.BitVec(ex.fresh_name("nargs"), 64)
     ex.assume(z3.ULE(n, ARGS_BOUND))
@@ -191,10 +217,11 @@ class Facts:
             if e.name == "bind_param":
                 b, n, v = e.extra
                 binds.setdefault(b, {})[n] = v
-            elif e.name == "Interpreter::new":
-                interps[e.extra["ret"]] = (e.extra["cel"], e.extra["bindings"], dict(binds.get(e.extra["bindings"], {})))
             elif e.name == "run_raw" and e.extra["resolve"] is not False:
-                self.evals.append(dict(interp=e.extra["interp"], code=e.extra["code"], resolve=e.extra["resolve"], ret=e.ret, env=interps.get(e.extra["interp"])))
+                # the interpreter a body runs on is described by what it holds at that moment: which
+                # context, which bindings (with the loop variable as bound by then), which call depth
+                env = (e.extra["cel"], e.extra["bindings"], dict(binds.get(e.extra["bindings"], {}))) if e.extra.get("bindings") is not None else None
+                self.evals.append(dict(interp=e.extra["interp"], code=e.extra["code"], resolve=e.extra["resolve"], ret=e.ret, env=env, depth=e.extra.get("depth")))
 
     def code(self, k):
         """identity of the k-th argument block"""
@@ -684,6 +711,16 @@ def make_check(ref_fn, ctx_style=False, macro="?"):
                         codes = {F.code(2)}
                     ok, why = evals_match(F, exp.evals, codes)
                 V.check(ex, "body evaluations: order, multiplicity, bindings, early stop", ok, assumed, detail=why, scenario=scen, prefer=pref)
+                if not ctx_style:
+                    # C12: a body runs at the call depth of the interpreter that evaluates the macro (so a
+                    # reference cycle through a macro body reaches the depth limit), every iteration
+                    # from that same depth (iterations do not consume the budget)
+                    d = ex.notes["caller_depth"]
+                    bodies = [e for e in F.evals if e["code"] in codes and e.get("depth") is not None]
+                    f = z3.And([e["depth"] == d for e in bodies] + [z3.BoolVal(True)])
+                    V.check(ex, "every body evaluation runs at the caller's call depth", f, assumed,
+                            detail=lambda: f"caller at depth {d}, body interpreters at {[str(z3.simplify(e['depth'])) for e in bodies]}", scenario=scen,
+                            prefer=lambda: [d == 5])
     return check
 
 
@@ -691,7 +728,7 @@ TARGETS = []
 
 
 def add(name, prop, func, ref, ctx_style=False, what=""):
-    TARGETS.append(dict(name=name, props=[prop, "C01"], func=func, cfg=MACRO_CFG, make_args=macro_args, check=make_check(ref, ctx_style, name.split("_", 1)[1]), what=what,
+    TARGETS.append(dict(name=name, props=[prop, "C01"] + (["C12"] if prop == "C07" else []), func=func, cfg=MACRO_CFG, make_args=macro_args, check=make_check(ref, ctx_style, name.split("_", 1)[1]), what=what,
                         bounds={"list_len": f"0..={LIST_BOUND}", "macro_args": f"0..={ARGS_BOUND}"}))
 
 
